@@ -87,3 +87,68 @@ Proof.
   - apply srcm_add_eq.
   - now apply srcm_remove_eq.
 Qed.
+
+(* ---- __delitem__: for val in self.data.pop(key): ... -------------------------------------- *)
+Lemma sd_discard_get_other (d : sdict) k v k' : k' <> k -> d_get (sd_discard d k v) k' = d_get d k'.
+Proof.
+  intro Hne. unfold sd_discard. destruct (d_get d k) as [s|]; trivial.
+  destruct (s_rm s v).
+  - rewrite get_rm. destruct (Nat.eqb k' k) eqn:E; trivial. apply Nat.eqb_eq in E. congruence.
+  - rewrite get_set. destruct (Nat.eqb k' k) eqn:E; trivial. apply Nat.eqb_eq in E. congruence.
+Qed.
+
+(* the body of the loop, on one value whose reverse set holds the key, is sd_discard *)
+Lemma delitem_body (d i : sdict) k v t : d_get i v = Some t -> In k t ->
+  bind (pm_set_remove (mkM d i) MInvData v k) (fun self =>
+  bind (pm_truthy self MInvData v) (fun c =>
+  if c then Ok (VNone, self)
+  else bind (pm_delitem self MInvData v) (fun self => Ok (VNone, self)))) =
+  Ok (VNone, mkM d (sd_discard i v k)).
+Proof.
+  intros Ei Hin. apply s_mem_In in Hin.
+  unfold pm_set_remove, pm_truthy, pm_delitem, sd_discard. simpl. rewrite Ei, Hin. simpl.
+  rewrite get_set, Nat.eqb_refl. simpl.
+  destruct (s_rm t k) as [|y ys] eqn:Et; simpl; rewrite ?get_set, ?Nat.eqb_refl, ?d_rm_set; reflexivity.
+Qed.
+
+Lemma delitem_loop k (s : list nat) : forall (d i : sdict), NoDup s ->
+  (forall v, In v s -> exists t, d_get i v = Some t /\ In k t) ->
+  pm_for s (fun self p_val =>
+    bind (pm_set_remove self MInvData p_val k) (fun self =>
+    bind (pm_truthy self MInvData p_val) (fun c =>
+    if c then Ok (VNone, self)
+    else bind (pm_delitem self MInvData p_val) (fun self => Ok (VNone, self))))) (mkM d i) =
+  Ok (mkM d (fold_left (fun inv v => sd_discard inv v k) s i)).
+Proof.
+  unfold pm_for. induction s as [|v r IH]; simpl; intros d i ND H; trivial.
+  destruct (H v (or_introl eq_refl)) as [t [Ei Hin]].
+  rewrite (delitem_body d i k v t Ei Hin). simpl.
+  inversion ND; subst. apply IH; trivial.
+  intros v' Hv'. destruct (H v' (or_intror Hv')) as [t' [Ei' Hin']]. exists t'. split; trivial.
+  rewrite sd_discard_get_other; trivial. intros ->. tauto.
+Qed.
+
+Theorem srcm_delitem_eq m k : M2mInv m -> srcm_delitem m k = lift_m (m_delitem m k).
+Proof.
+  intros [A B C]. destruct m as [d i]. simpl in *.
+  unfold srcm_delitem, m_delitem, pm_pop. simpl.
+  destruct (d_get d k) as [s|] eqn:Ed; simpl; trivial.
+  rewrite (delitem_loop k s (d_rm d k) i).
+  - reflexivity.
+  - now apply (swf_sets _ A k s).
+  - intros v Hv. assert (R : rel_of i v k) by (apply C; unfold rel_of; now rewrite Ed).
+    unfold rel_of in R. destruct (d_get i v) as [t|]; [eauto|tauto].
+Qed.
+
+Theorem srcm_eq_model_on_reachable3 hops m s : In m (m2m_run hops) ->
+  let x := m2m_side s m in
+  (forall k v, srcm_add x k v = Ok (VNone, m_add x k v)) /\
+  (forall k v, srcm_remove x k v = lift_m (m_remove x k v)) /\
+  (forall k, srcm_delitem x k = lift_m (m_delitem x k)).
+Proof.
+  intros Hin x. pose proof (m2m_run_ok hops) as F. rewrite Forall_forall in F.
+  pose proof (M2mInv_side s m (F m Hin)) as I. repeat split; intros.
+  - apply srcm_add_eq.
+  - now apply srcm_remove_eq.
+  - now apply srcm_delitem_eq.
+Qed.
